@@ -74,6 +74,34 @@ class Ctx:
             self._cfg[key] = CFG(f.node, raises, ea.h.is_sub, hcls, sup, cancellation=cancellation)
         return self._cfg[key]
 
+    def plain_cfg(self, f: FuncInfo) -> CFG:
+        """Control flow only (no exceptional edges): for dominance queries that do not depend on what may raise."""
+        key = ("plain", id(f))
+        if key not in self._cfg:
+            from .exc import Hierarchy
+
+            h = Hierarchy(self.repo)
+            self._cfg[key] = CFG(f.node, lambda n: set(), h.is_sub, lambda hd: self.handler_classes(f, hd), None, cancellation=False)
+        return self._cfg[key]
+
+    def handler_classes(self, f: FuncInfo, h: ast.ExceptHandler) -> list[str]:
+        from .exc import Hierarchy
+
+        hier = Hierarchy(self.repo)
+        if h.type is None:
+            return ["builtins.BaseException"]
+        elts = h.type.elts if isinstance(h.type, ast.Tuple) else [h.type]
+        out = []
+        for e in elts:
+            ref = self.tf.ref_of(f.module.name, e) or self.repo.resolve(f.module, ast.unparse(e)) or ast.unparse(e)
+            out.append(hier.norm(ref))
+        return out
+
+    def is_sub(self, a: str, b: str) -> bool:
+        from .exc import Hierarchy
+
+        return Hierarchy(self.repo).is_sub(a, b)
+
     # convenience -------------------------------------------------------------------------
 
     def func(self, qn: str) -> FuncInfo:
